@@ -236,7 +236,9 @@ type swGen struct {
 var (
 	swIdents   = []string{"f", "usage", "cpu.load", "mem_used", "'free space'", "a1", "Idle", "`q`", "host", "dc", "_sys", "$v1", "@at"}
 	swTagKeys  = []string{"host", "dc", "node_name", "ip", "zone.id"}
-	swTagVals  = []string{"'h1'", "h2", "'a b'", "'1.1.1.1'", "'*web*'", "'^a.*z$'", "'db-1'", "'中文'", "'x\"y'", "'<&>'", "'a\\\\b'", "''"}
+	swTagVals  = []string{"'h1'", "h2", "'a b'", "'1.1.1.1'", "'*web*'", "'^a.*z$'", "'db-1'", "'中文'", "'x\"y'", "'<&>'", "'a\\\\b'", "''",
+		// control characters and non-printable runes: JSON and Go quote them differently
+		"'web\x7f01'", "'a\x1bb'", "'bell\a'", "'v\vt'", "'u\x1f'", "'\U000e0001tag'", "'ls\u2028'", "'nul\x00'"}
 	swFuncs    = []string{"sum", "min", "max", "avg", "count", "last", "first", "stddev", "quantile", "rate", "SUM", "Max"}
 	swOrdFuncs = []string{"sum", "min", "max", "avg", "count", "last", "first", "stddev"}
 	swUnits    = []string{"s", "m", "h", "d", "w", "M", "y", "S", "H", "D"}
@@ -525,7 +527,8 @@ func (g *swGen) metadata() string {
 }
 
 // ---------------------------------------------------------------- expression trees built directly
-var swStrings = []string{"f", "", "a b", "x\"y", "中文", "<&>", "a\\b", "line\nbreak", "tab\t", "{\"type\":\"field\"}", "null", "*"}
+var swStrings = []string{"f", "", "a b", "x\"y", "中文", "<&>", "a\\b", "line\nbreak", "tab\t", "{\"type\":\"field\"}", "null", "*",
+	"del\x7f", "\x1b[0m", "\a\v\f\b", "\U000e0001", "\u2028\u2029", "\x00", "\x1f"}
 
 func (g *swGen) str() string { return swStrings[g.rng.Intn(len(swStrings))] }
 
